@@ -37,7 +37,7 @@ impl RaftIndexInnerManager {
             .await?;
         let meta = file.metadata().await?;
         //log::info!("index file len:{}",meta.len());
-        let (last_applied_log, raft_index) = if meta.len() <= 20 {
+        let (last_applied_log, raft_index) = if meta.len() <= 8 {
             //init write
             let index = RaftIndex::default();
             /*
@@ -62,14 +62,20 @@ impl RaftIndexInnerManager {
             (0, raft_index)
         } else {
             //read
-            let mut header_buf = vec![0u8; 8];
+            let mut header_buf = vec![0u8; 9];
             file.read_exact(&mut header_buf).await?;
             let last_applied_log = bin_to_id(&header_buf);
-            let mut file_reader = FileMessageReader::new(file.try_clone().await?, 8);
-            let buf = file_reader.read_next().await?;
-            let mut reader = BytesReader::from_bytes(&buf);
-            let index: RaftIndex = reader.read_message(&buf)?;
-            let raft_index: RaftIndexDto = index.into();
+            let raft_index: RaftIndexDto = if header_buf[8] == 0 {
+                // an empty catalogue is stored as a zero-length message
+                RaftIndex::default().into()
+            } else {
+                file.seek(std::io::SeekFrom::Start(8)).await?;
+                let mut file_reader = FileMessageReader::new(file.try_clone().await?, 8);
+                let buf = file_reader.read_next().await?;
+                let mut reader = BytesReader::from_bytes(&buf);
+                let index: RaftIndex = reader.read_message(&buf)?;
+                index.into()
+            };
             (last_applied_log, raft_index)
         };
         Ok(Self {
